@@ -44,8 +44,10 @@ def merge_tables(dst, src):
     for k, v in src.items():
         if isinstance(v, dict):
             merge_tables(dst.setdefault(k, {}), v)
-        else:
+        elif isinstance(v, (int, float)) and isinstance(dst.get(k, 0), (int, float)):
             dst[k] = dst.get(k, 0) + v
+        else:
+            dst[k] = v
 
 
 def run_check(pid, tier, seed, workers=None, only=None, extra_env=None, quiet=False):
